@@ -22,6 +22,7 @@ abbrev CellT := Cell (List Char)
 
 structure St where
   sheets : List (List CellT) := []
+  unmodelled : Bool := false   -- a structural edit happened in this workbook: not followed by this model
 
 def keyLt (a b : Nat × Nat) : Bool := a.1 < b.1 || (a.1 == b.1 && a.2 < b.2)
 
@@ -209,6 +210,10 @@ def findCell (sheet : List CellT) (col row : Nat) : Option CellT := sheet.find? 
 
 def handle (st : St) (args : List String) : St × String :=
   let F := textFmt []
+  match args with
+  | "shift" :: _ => ({ st with unmodelled := true }, "unmodelled")
+  | _ =>
+  if st.unmodelled ∧ args.head? ≠ some "reset" then (st, "unmodelled") else
   match args with
   | ["reset", n] =>
     match n.toNat? with
